@@ -1,4 +1,4 @@
-\* C01 thorough: longer series, all psi 4-tuples, euclidean inner distance, max_length_diff
+\* C01 thorough: longer series, all psi 4-tuples with entries <= 3, euclidean inner distance, max_length_diff
 SPECIFICATION Spec
 CONSTANTS
   MaxLen = 4
@@ -9,7 +9,7 @@ CONSTANTS
   MaxSteps = {0, 1}
   MaxDists = {0}
   MLDs = {99, 1}
-  PsiMax = 4
+  PsiMax = 3
   TinyLen = 5
 INVARIANT CellwiseOptimal
 INVARIANT DistanceOptimal
